@@ -615,19 +615,46 @@ impl Workload for LoWorkload {
                     continue; // e.g. no entry node: ska says so and exits 1
                 }
             } else if !r.ok() {
+                let stale = (c.base.seed as usize + vi) % 2 == 0;
+                let crlf_ref = with_ref && dir.read("ref.fa").map(|d| d.contains(&b'\r')).unwrap_or(false);
+                if r.refused() && (stale || crlf_ref) {
+                    // refusing to overwrite existing outputs, or a reference with CRLF line ends, is
+                    // outside what C17 / C18 speak about: no verdict for this execution
+                    probe("lo_refuses_with_existing_outputs_or_crlf_reference");
+                    continue;
+                }
                 viol = Some((format!("lo:{}-planted-variants-but-lo-fails", c.kind), format!("{ctxs}: {} {}", r.status_str(), r.stderr_tail())));
                 break;
             }
-            let Some(fas) = dir.read(&format!("{tag}_snps.fas")) else {
-                viol = Some(("lo:no-snp-alignment-written".into(), ctxs));
-                break;
+            let fas = match dir.read(&format!("{tag}_snps.fas")) {
+                Some(f) => f,
+                // only the SNP kinds demand a SNP alignment; elsewhere no file = no SNP columns
+                None if c.kind == "snp" || c.kind == "snp-ref" => {
+                    viol = Some(("lo:no-snp-alignment-written".into(), ctxs));
+                    break;
+                }
+                None => {
+                    probe("lo_wrote_no_snp_alignment");
+                    Vec::new()
+                }
             };
             out.nontrivial = true;
-            let (_, seqs) = match wellformed(&fas, n, missing) {
-                Ok(x) => x,
-                Err(e) => {
-                    viol = Some(("lo:snp-alignment-not-well-formed".into(), format!("{ctxs}: {e}")));
-                    break;
+            let (_, seqs) = if fas.is_empty() && c.kind != "snp" && c.kind != "snp-ref" {
+                (vec![], vec![])
+            } else {
+                match wellformed(&fas, n, missing) {
+                    Ok(x) => x,
+                    Err(e) => {
+                        // (in an indel run this is still C17's clause about every run: reported under
+                        // the property being checked only for C17)
+                        if self.property == "C18" {
+                            probe("c18_run_with_a_malformed_snp_alignment");
+                            (vec![], vec![])
+                        } else {
+                            viol = Some(("lo:snp-alignment-not-well-formed".into(), format!("{ctxs}: {e}")));
+                            break;
+                        }
+                    }
                 }
             };
             match c.kind.as_str() {
@@ -682,7 +709,7 @@ impl Workload for LoWorkload {
                     };
                     let mut called = vec![];
                     for line in String::from_utf8_lossy(&vcf).lines() {
-                        if line.starts_with('#') {
+                        if line.starts_with('#') || line.trim().is_empty() {
                             continue;
                         }
                         let f: Vec<&str> = line.split('\t').collect();
@@ -741,7 +768,13 @@ impl Workload for LoWorkload {
                     let mut cs = called.clone();
                     cs.sort();
                     let exp: Vec<Vec<u8>> = cs.iter().map(|x| (0..n).map(|s| truth(s, *x)).collect()).collect();
-                    if cols != exp {
+                    // (C17 grants the alignment "up to column order and strand" with a reference too)
+                    let canon_sorted = |v: &[Vec<u8>]| {
+                        let mut w: Vec<Vec<u8>> = v.iter().cloned().map(canon_col).collect();
+                        w.sort();
+                        w
+                    };
+                    if canon_sorted(&cols) != canon_sorted(&exp) {
                         viol = Some(("lo:snp-alignment-disagrees-with-vcf-or-truth".into(), format!("{ctxs}: columns {:?} expected {:?}", cols.iter().map(|x| String::from_utf8_lossy(x).to_string()).collect::<Vec<_>>(), exp.iter().map(|x| String::from_utf8_lossy(x).to_string()).collect::<Vec<_>>())));
                         break;
                     }
@@ -790,7 +823,9 @@ impl Workload for LoWorkload {
                         }
                         nrec += 1;
                         let f: Vec<&str> = line.split('\t').collect();
-                        let info: BTreeMap<&str, &str> = f.get(6).map(|s| s.split(';').filter_map(|kv| kv.split_once('=')).collect()).unwrap_or_default();
+                        // the flanks: key=value pairs of the FILTER or the INFO column (the pinned writer
+                        // puts them under FILTER; which of the two is nobody's property)
+                        let info: BTreeMap<&str, &str> = f.iter().skip(6).take(2).flat_map(|s| s.split(';')).filter_map(|kv| kv.split_once('=')).collect();
                         if f.len() != 9 + n || !info.contains_key("before") || !info.contains_key("after") {
                             viol = Some(("lo:indel-vcf-malformed".into(), format!("{ctxs}: {line:?}")));
                             break;
